@@ -348,6 +348,34 @@ func ruleC12FailedAccessNeutral(c *Ctx) {
 					}
 				}
 			}
+			// an increment that happens before the Protect call must be undone on the failed edge
+			for _, k := range inc {
+				if reaches(k, i) {
+					undone := false
+					for _, b := range f.Blocks {
+						for _, s := range b.Succs {
+							for _, fct := range edgeFacts(b, s) {
+								if x, isNil, ok := nilTest(fct); ok && !isNil && e != nil && strip(x) == e {
+									okp, _ := mustPass(s, 0, func(j ssa.Instruction) bool {
+										for _, d := range counterStores(f, token.SUB) {
+											if j == d {
+												return true
+											}
+										}
+										return false
+									}, nil)
+									if okp {
+										undone = true
+									}
+								}
+							}
+						}
+					}
+					if !undone {
+						bad = true
+					}
+				}
+			}
 			c.check(!bad && e != nil, name+"/Protect-failed", u.ipos(i), "increment unreachable on the Protect-failed edge", "a failed attempt to open the secret still counts a reader: Close waits forever and later readers skip Protect(ReadOnly)")
 		})
 		if n == 0 {
